@@ -14,7 +14,7 @@ use tree_sitter_graph::functions::Functions;
 use tree_sitter_graph::graph::{Graph, Value};
 use tree_sitter_graph::{CancellationError, CancellationFlag, ExecutionConfig, ExecutionError, Identifier, ParseError, Variables};
 
-pub const POLL_CAP: u64 = 3_000_000;
+pub const POLL_CAP: u64 = 200_000;
 
 pub struct CountingFlag {
     pub polls: Cell<u64>,
